@@ -81,6 +81,8 @@ def _run(n, e0, e1, e2, e3, pre, raise_first, prefix, api, store, ELEMS=ELEMS, S
             cover("python-equal-but-distinct-elements")
         if SRC is SRC_REC and any(xs[i] == 2 and 1 in xs[i + 1:] for i in range(len(xs))):
             cover("an-element-memoized-by-an-earlier-element's-body")
+        if SRC is SRC_UNST and 4 in xs:
+            cover("element-failing-outside-the-body")
         if n == 0:
             cover("empty-batch")
         results = []
@@ -136,9 +138,12 @@ def _run(n, e0, e1, e2, e3, pre, raise_first, prefix, api, store, ELEMS=ELEMS, S
                 ran = list(prog.trace)[n0:]
                 results.append((out, sorted(ran, key=repr), _store_state(f, sb.storage())))
                 if mode == "batch":
-                    check("each-distinct-element-runs-at-most-once", len(ran) == len(set(ran)), ran)
+                    # (an element whose outcome cannot be stored - SRC_UNST's 4 - is never memoized: it runs whenever it is asked
+                    # for, in a batch as in individual calls; the at-most-once claim is about storable outcomes)
+                    ran_s = [t for t in ran if not (SRC is SRC_UNST and t[-1] == 4)]
+                    check("each-distinct-element-runs-at-most-once", len(ran_s) == len(set(ran_s)), ran)
                     pre_keys = [(type(x).__name__, x) for x in pre_xs]
-                    check("memoized-elements-do-not-run", all((type(t[-1]).__name__, t[-1]) not in pre_keys for t in ran), (ran, pre_xs))
+                    check("memoized-elements-do-not-run", all((type(t[-1]).__name__, t[-1]) not in pre_keys for t in ran_s), (ran, pre_xs))
             finally:
                 prog.close()
                 sb.close()
@@ -182,16 +187,48 @@ def batch_n4(e0: int, e1: int, e2: int, e3: int, pre: int, raise_first: bool, pr
 @obligation(
     "C15.batch_equal_values",
     covers=("python-equal-but-distinct-elements", "failing-element", "some-memoized-before"),
-    split={"store": ["memory", "fs+cache:1"], "n": [2, 3], "e0": [0, 1, 2, 3, 4]},
+    split={"store": ["memory", "fs+cache:1"], "n": [2, 3], "e0": [0, 1, 2, 3, 4], "api": ["call_batch", "map_over_range"]},
     bounds="batches of length 2..3 over {1, 1.0, True, failing False, 0} - values that Python treats as equal (and hashes equally) but "
            "that are distinct calls with type-dependent results - x 8 pre-memoized subsets (of the first three) x raise_first_exception x "
-           "partial prefix, call_batch, {memory, fs+cache}; oracle = element-wise evaluation",
+           "partial prefix, {call_batch, map_over_range}, {memory, fs+cache}; oracle = element-wise evaluation",
     variables="choice: elements, pre-memoized subset, raise_first, prefix",
     budget_s={"quick": 170, "thorough": 600},
     choice_vars=7,
 )
-def batch_equal_values(e0: int, e1: int, e2: int, e3: int, pre: int, raise_first: bool, prefix: bool, store: str, n: int):
-    _run(n, e0, e1, e2, e3, pre, raise_first, prefix, "call_batch", store, ELEMS=ELEMS_TYPED, SRC=SRC_TYPED, failing=False)
+def batch_equal_values(e0: int, e1: int, e2: int, e3: int, pre: int, raise_first: bool, prefix: bool, store: str, n: int, api: str = "call_batch"):
+    if api == "map_over_range":
+        assume(not raise_first)
+        assume(not prefix)
+    _run(n, e0, e1, e2, e3, pre, raise_first, prefix, api, store, ELEMS=ELEMS_TYPED, SRC=SRC_TYPED, failing=False)
+
+
+SRC_UNST = (
+    "@m.memento_function(version='1')\n"
+    "def f(p, x):\n"
+    "    _trace.append((p, x))\n"
+    "    if x == 3:\n"
+    "        raise ValueError('bad %r' % (x,))\n"
+    "    if x == 4:\n"
+    "        return (i for i in range(3))  # not a result memento can store: the call fails OUTSIDE the body\n"
+    "    return p * 100 + x\n"
+)
+ELEMS_UNST = [1, 4, 3]
+
+
+@obligation(
+    "C15.batch_unstorable",
+    covers=("element-failing-outside-the-body", "failing-element", "some-memoized-before"),
+    split={"store": ["memory", "fs+cache:1"], "n": [2, 3], "api": ["call_batch", "map_over_range"]},
+    bounds="batches of length 2..3 over {1, 4 whose body returns a generator (the call fails after the body, when the result is "
+           "classified / stored), failing 3} x 8 pre-memoized subsets x raise_first_exception x partial prefix x {call_batch, "
+           "map_over_range} x {memory, fs+cache}; oracle = element-wise evaluation (the failure appears in its slot, later elements "
+           "are still evaluated and memoized)",
+    variables="choice: elements, pre-memoized subset, raise_first, prefix",
+    budget_s={"quick": 170, "thorough": 600},
+    choice_vars=7,
+)
+def batch_unstorable(e0: int, e1: int, e2: int, e3: int, pre: int, raise_first: bool, prefix: bool, api: str, store: str, n: int):
+    _run(n, e0, e1, e2, e3, pre, raise_first, prefix, api, store, ELEMS=ELEMS_UNST, SRC=SRC_UNST)
 
 
 SRC_REC = (
